@@ -58,3 +58,43 @@ func errStr(err error) string {
 }
 
 var _ = fmt.Sprint
+
+func sortStrings(s []string) { sort.Strings(s) }
+
+// classifyErr maps an error to a short stable class (its sentinel text without the
+// variable parts) for violation signatures.
+func classifyErr(err error) string {
+	if err == nil {
+		return "nil"
+	}
+	s := err.Error()
+	for _, cut := range []string{": delegation ", ": need ", ": expected ", ": [", ": invocation", ": did:", " bafy", ": \""} {
+		if i := indexOf(s, cut); i > 0 {
+			s = s[:i]
+		}
+	}
+	if len(s) > 70 {
+		s = s[:70]
+	}
+	out := make([]rune, 0, len(s))
+	for _, r := range s {
+		switch {
+		case r >= 'a' && r <= 'z', r >= 'A' && r <= 'Z', r >= '0' && r <= '9':
+			out = append(out, r)
+		default:
+			if len(out) > 0 && out[len(out)-1] != '-' {
+				out = append(out, '-')
+			}
+		}
+	}
+	return string(out)
+}
+
+func indexOf(s, sub string) int {
+	for i := 0; i+len(sub) <= len(s); i++ {
+		if s[i:i+len(sub)] == sub {
+			return i
+		}
+	}
+	return -1
+}
